@@ -213,11 +213,17 @@ class Ctx:
             if k["property"] == self.prop and self.known_hits.get(k["signature"]):
                 print("KNOWN-FINDING: property=%s %s [%s] (%d executions)" % (self.prop, k["what"], k["signature"], self.known_hits[k["signature"]]))
         seen = set()
+        per_sig = collections.Counter()
         for sig, path, detail in self.violations:
             if (sig, path) in seen:
                 continue
             seen.add((sig, path))
-            print("VIOLATION property=%s replay=%s  (%s%s)" % (self.prop, path, sig, (": " + detail) if detail else ""))
+            per_sig[sig] += 1
+            if per_sig[sig] <= 10:      # at most 10 replay files are listed per signature; the total is in the summary line
+                print("VIOLATION property=%s replay=%s  (%s%s)" % (self.prop, path, sig, (": " + detail) if detail else ""))
+        for sig, n in per_sig.items():
+            if n > 10:
+                print("... %d more rejected executions with signature %s" % (n - 10, sig))
         print("%s %s: %d model states, %d impl executions judged (%d accepted), %d violations, %d known-finding hits, %.1fs" % (
             self.prop, self.tier, self.states, self.traces, self.traces_ok, len(seen), sum(self.known_hits.values()), wall))
         shutil.rmtree(self.tmp, ignore_errors=True)
